@@ -2,7 +2,7 @@
 # Build every harness test binary once (warms the go build cache); offline, from files on disk only.
 cd "$(dirname "$0")" || exit 1
 rc=0
-for id in $(python3 -c "import sys; sys.path.insert(0,'lib'); import registry; print(' '.join(sorted(registry.PROPS)))"); do
+for id in $(python3 -c "import sys; sys.path.insert(0,'lib'); import manifest_meta as mm; print(' '.join(sorted(mm.CLAIMED)))"); do
   python3 lib/driver.py "$id" --build-only || rc=$?
 done
 exit 0
